@@ -44,8 +44,16 @@ class Site:
         self.extra = extra or {}
 
     @property
+    def owner(self):
+        """outermost named function: closure numbering is not stable under edits"""
+        f = self.fn
+        while f.kind == "Closure" and f.parent_key in f.prog.fns:
+            f = f.prog.fns[f.parent_key]
+        return f
+
+    @property
     def key(self):
-        return "%s|%s|%s" % (self.fn.spath, self.kind, self.detail)
+        return "%s|%s|%s" % (self.owner.spath, self.kind, self.detail)
 
     def loc(self):
         return "%s:%d" % (self.file, self.line)
@@ -72,7 +80,10 @@ def enumerate_sites(fn):
             tys = [o.get("ty", "?") for o in ops]
             if ak.startswith("Overflow("):
                 kind = "overflow"
+                cs = ["c%s" % o["int"] if (o["k"] == "const" and "int" in o) else "_" for o in ops]
                 detail = "%s %s" % (ak[9:-1], ",".join(tys))
+                if any(c != "_" for c in cs):
+                    detail += " [%s]" % ",".join(cs)
             elif ak == "OverflowNeg":
                 kind, detail = "overflow", "Neg %s" % tys[0]
             elif ak in ("DivisionByZero", "RemainderByZero"):
